@@ -108,6 +108,110 @@ _add(
     AI + " across functional.py/_modules.py/optim.py + sympy identity",
 )
 
+AIX = "abstract interpretation over ast of the repository source on abstract objects"
+_add(
+    "C08",
+    "Static: for the 11 leaf modules (constructor options symbolic, flags enumerated) __init__ and forward are abstractly"
+    " evaluated with the torch.nn base constructor modelled by its attribute convention: forward = exactly one call of the"
+    " same-role functional on the module's own parameters; every option with a same-named functional parameter is bound to"
+    " it (no dead / mis-routed option), others are consumed at construction, read in forward or rejected; Conv1d passes"
+    " padding 0 after an explicit pad; Parameter tag table; reset_parameters (normal_ / zeroed bias), RMSNorm ones; depth"
+    " containers tag with len(self) and refuse untagged parameters; MLP/MHSA/TransformerLayer forward their options.",
+    TRUST + " torch.nn constructors' attribute convention is a frozen table. Numerical equality with the torch.nn twin is not decided (follows from C01 given the delegation).",
+    AIX + " + option-forwarding relation on resolved call bindings",
+)
+_add(
+    "C09",
+    "Static induction over producers: every function of parameter.py that returns a parameter object (Parameter,"
+    " _parameter_deepcopy, _rebuild_parameter_with_state) is shown by abstract evaluation to re-establish the whole"
+    " invariant {mup_type, mup_scaling_depth, instance __deepcopy__, instance __reduce_ex__ bound to the new object}; the"
+    " pickled state filters exactly the two hooks and keeps the tags; reduce rebuilds through the library's function;"
+    " has_parameter_data reads only the tags; apply_transform copies via copy.deepcopy. Holds for histories of any length.",
+    TRUST + " nn.Parameter.__deepcopy__/torch._utils rebuild produce parameters with only the shipped state; .to/.half/load_state_dict keep object identity (torch default).",
+    AIX + " (producer-closure / typestate of the tag invariant)",
+)
+_add(
+    "C11",
+    "Static: scaled_parameters is abstractly executed on symbolic group lists (bare, grouped with own lr/decay/extra keys,"
+    " allowed-untagged, tensor lr, independent decay on/off, opaque lr_scale_func): one output group per parameter in order,"
+    " extra keys carried by identity, caller's dicts/lists unchanged, tensor lr cloned per parameter and never modified in"
+    " place, stored decay == group decay / float(the stored scaled lr) (lr x wd == requested decay) or passed through."
+    " A syntactic loop-discipline rule (no break/continue/return, one unconditional append) extends it to unbounded inputs.",
+    TRUST + " One optimizer step multiplying parameters by (1 - lr*wd) is PyTorch optimizer semantics, not decided.",
+    AIX + " + syntactic loop-discipline rule",
+)
+_add(
+    "C13",
+    "STRUCTURAL clauses only: FPFormat.quantise (nearest) abstractly evaluated with symbolic E, M (thorough: every E in 2..8 x"
+    " M in 0..23): the int32 bit reinterpretation acts on a float32 value on every path and the result is cast back to"
+    " x.dtype; no in-place op on an alias of the argument; the returned dataflow term equals the reference pipeline with"
+    " mask 2^(23-M)-1, offset in {floor,ceil}(mask/2) (exhaustive over M), downscale 2^(127-2^(E-1)), clip at max; unknown"
+    " mode raises ValueError; range properties consistent. Per-bit-pattern neighbour/idempotence/monotonicity clauses are"
+    " NOT decidable statically and are not claimed.",
+    TRUST + " That add-half-then-truncate on the float32 pattern rounds to nearest is an integer-arithmetic argument, not mechanised here.",
+    AIX + " + dtype typestate + term equality with reference pipeline (finite-domain exact comparison of constants)",
+)
+_add(
+    "C14",
+    "STRUCTURAL clauses only: stochastic path of FPFormat.quantise with symbolic E, M, srbits: exactly one torch.randint with"
+    " low 0, high 2^srbits, size x.shape (one draw per element), int32, x.device; the returned term equals the reference"
+    " scheme (randint << (23-M-srbits)) + [23-M-srbits>0] half-step under both arms; dtype typestate / no mutation;"
+    " __post_init__ default srbits = 23-M, explicit kept, rejected with nearest. The probabilities themselves are NOT"
+    " decided (would need enumerating draws: another family).",
+    TRUST + " The carry argument linking the scheme to the probability clause is a paper step.",
+    AIX + " + term equality with reference scheme under gated guards",
+)
+_add(
+    "C15",
+    "Static: straight-through autograd functions are value/gradient identities on the untouched pass; each wrapper of"
+    " _replacement_map equals (term equality) quantise_fwd(tensor operands only) -> the key op with all remaining"
+    " arguments -> quantise_bwd, formats from the 4th/5th parameter; tuple transport restores every field quantise reads;"
+    " the argument splice binds positional / omitted / keyword forms to the wrapper signature with each argument in its"
+    " role; the backend rewrites exactly call_function nodes in the map (abstract fx nodes), lints; simulate_fp8 = E4M3/E5M2.",
+    TRUST + " What TorchDynamo captures and bit-exactness under a lossless format are not decided.",
+    AIX + " + abstract fx node model + signature binding",
+)
+_add(
+    "C16",
+    "Translation validation on a covering set of abstract FX graphs (residual with input skip, nested blocks with softmax"
+    " branch + readout + plain add after the last residual, skip produced by a plain add, scalar / in-place adds +"
+    " attention + user replacement precedence): the unit-scaling backend (incl. utils.replace_node_with_function) is"
+    " abstractly executed on an fx model and its result compared, as an unfolded dataflow term, with an independent"
+    " reference rewriter written from the User-Guide recipe; every rewritten call must bind; torch_map is evaluated"
+    " statically from the module namespace and torch name tables; unit_scale() re-initialises and reorders the copy.",
+    TRUST + " The fx contract is modelled in usa/fxmodel.py; Dynamo-captured graphs are not decided; graph shapes are a finite covering set.",
+    AIX + " (abstract fx graph model) vs reference rewriter",
+)
+_add(
+    "C17",
+    "Static: apply_transform abstractly executed on fresh / already-transformed abstract modules: result is a deepcopy, all"
+    " stores land on the copy, input attributes and backend list unchanged, result.backends = old + [new] as its own list"
+    " which the composite backend closes over; composition applies each backend once in order; _order_backends puts the"
+    " backend unit_scale installed before the one simulate_format installed for every order (name coupling through the"
+    " real closures' __qualname__); both user orders end [unit, quant]; rerun/base_forward cache flags; mutable defaults never mutated.",
+    TRUST + " Equality of outputs across orders, storage independence at run time and Dynamo caching are not decided.",
+    AIX + " (ownership / copy-before-write, provenance of backend objects)",
+)
+_add(
+    "C18",
+    "Static: tracker autograd functions return their argument (or clone) in both passes and record metrics from the"
+    " forward resp. backward argument; both interpreters' run_node return gamma(float-tensor predicate(out) ?"
+    " tracker.apply(out) : out) for out = super().run_node(n); each Metrics field equals its definition as a method chain;"
+    " the requires-grad shim only calls requires_grad_ under the float predicate and delegates unchanged.",
+    TRUST + " Autograd sums consumer gradients before a custom function's backward; bit-identity under Dynamo not decided.",
+    AIX + " + method-chain normal forms",
+)
+_add(
+    "C19",
+    "Static: the three pruning helpers are abstractly executed on an abstract FX graph whose removable nodes are used"
+    " positionally, by keyword, inside a list, inside a nested tuple and in the output tuple: no raise under the fx contract"
+    " (erase_node raises while users remain), surviving nodes/order/args == an independently computed expectation (bypass"
+    " to the single float input or cut), copying helpers leave the input unchanged, selective helper in place, caller's"
+    " rtol reaches isclose, only mean|x| compared, one-sided gradients differ.",
+    TRUST + " fx contract as modelled in usa/fxmodel.py; what track_scales records at run time is not decided.",
+    AIX + " (abstract fx graph model) vs reference expectation",
+)
+
 PENDING = {}
 
 NOT_APPLICABLE = [
@@ -123,5 +227,5 @@ ALL_IDS = [f"C{i:02d}" for i in range(1, 21)]
 CHECKS = [IMPLEMENTED[k] for k in sorted(IMPLEMENTED)]
 for pid in ALL_IDS:
     if pid not in IMPLEMENTED and pid != "C20":
-        NOT_APPLICABLE.append({"property_id": pid, "reason": "check under construction in this session (see DESIGN.md §4 for the planned static rule); not claimed until it runs clean"})
+        raise SystemExit(f"{pid} neither claimed nor declared not applicable")
 NOT_APPLICABLE.sort(key=lambda d: d["property_id"])
